@@ -270,7 +270,10 @@ func ruleDispatch(c *Ctx) *RuleResult {
 	checkHandlers("BinOp", binC, binHandlers, 2)
 	checkHandlers("UnOp", unC, unHandlers, 1)
 	// ---- (d) implementer switches
-	type sw struct{ iface string; funcs []string }
+	type sw struct {
+		iface string
+		funcs []string
+	}
 	for _, s := range []sw{{"Cont", []string{"(Value).AsCont", "(Value).TryCont"}}, {"Callable", []string{"(Value).AsCallable", "(Value).TryCallable"}}} {
 		it := p.TypeNamed("runtime", s.iface)
 		if it == nil {
@@ -348,7 +351,10 @@ func ruleDispatch(c *Ctx) *RuleResult {
 		}
 	}
 	// ---- (e) processor witnesses: the named types implement the processor interfaces
-	type wit struct{ ifacePkg, iface, implPkg, impl string; ptr bool }
+	type wit struct {
+		ifacePkg, iface, implPkg, impl string
+		ptr                            bool
+	}
 	for _, w := range []wit{
 		{"ast", "StatProcessor", "astcomp", "compiler", true}, {"ast", "ExpProcessor", "astcomp", "expCompiler", true},
 		{"ast", "TailExpProcessor", "astcomp", "tailExpCompiler", false}, {"ast", "TailExpProcessor", "astcomp", "etcExpCompiler", true}, {"ast", "VarProcessor", "astcomp", "assignCompiler", true},
